@@ -25,7 +25,7 @@ RULE = ("seeded abstract VMs (0..8 devices on scsi/sata/ide/nvme with any bus:un
         "writers: VMX with random key casing, line order, comments, blank lines, quoting, CRLF, stale earlier assignments and an "
         "appended block re-assigning keys three or more times with spellings A/b/A; OVF with random prefixes, default namespace, "
         "disk-vs-file host resources, crossed ids (and, on every run, envelopes whose disk ids are a rotation of the file ids with both "
-        "HostResource forms), decoy ResourceType texts; on every run VMs whose file names / settings contain '#'; VirtualBox registries (machine / global styles, "
+        "HostResource forms), decoy ResourceType texts; on every run VMs whose file names / settings contain '#' and VMs whose hard disks carry a deviceType key with an empty value (\"\", bare, blanks; also emptied by the last of two assignments); VirtualBox registries (machine / global styles, "
         "differencing children, mixed formats and types, typed disks nested in disks of any format/type to depth 4, look-alike "
         "elements); Parallels hardware lists (Hdd/CdRom/Fdd, nested Partition/SystemName, shuffled children). Compared: the "
         "disk list (VMX sorted, XML in document order), for VMX also the dictionary and look-ups: real code vs Lean model vs "
@@ -266,6 +266,38 @@ def hashify(vm, rng):
     return vm
 
 
+# --------------------------------------------------------------------------- VMX: keys that are present but empty
+
+def emptytype(vm, rng, k):
+    """-> a copy of the VM in which hard disks carry a deviceType key with an EMPTY value (every spelling of G.EMPTY_RAW in turn,
+    k rotates them; every other one emptied by the last of two assignments, the earlier one naming a disk or a CD-ROM type), one
+    device has an empty fileName spelled with blanks, and CD-ROMs keep their explicit types. A device whose type is not given
+    is an ordinary hard disk: the expected list is unchanged."""
+    vm = dict(vm, devices=[dict(d) for d in vm["devices"]], controllers=list(vm["controllers"]))
+    disks = [d for d in vm["devices"] if d["kind"] == "disk" and d["file"]]
+    used = {(d["cls"], d["bus"], d["unit"]) for d in vm["devices"]}
+    want = 2 + k % 3
+    for cls, bus, unit in (("scsi", 0, 0), ("sata", 1, 3), ("nvme", 0, 1), ("ide", 1, 0), ("scsi", 3, 15), ("sata", 0, 29)):
+        if len(disks) >= want:
+            break
+        if (cls, bus, unit) in used:
+            continue
+        d = {"cls": cls, "bus": bus, "unit": unit, "kind": "disk", "file": rng.choice(G.DIRS) + rng.choice(G.STEMS) + "-e%d" % len(disks)}
+        vm["devices"].append(d)
+        disks.append(d)
+        if cls != "ide" and not any(c["cls"] == cls and c["bus"] == bus for c in vm["controllers"]):
+            vm["controllers"].append({"cls": cls, "bus": bus, "props": [["present", "TRUE"]]})
+    for i, d in enumerate(disks):
+        if i and i % 4 == 3:
+            continue                                            # one in four keeps whatever the writer picks (absent / a disk type)
+        d["dt_raw"] = G.EMPTY_RAW[(k + i) % len(G.EMPTY_RAW)]
+        d["dt_old"] = [None, "scsi-hardDisk", None, "cdrom-image", "disk", "atapi-cdrom"][(k // 2 + i) % 6]
+    for d in vm["devices"]:
+        if d["cls"] != "floppy" and not d["file"]:
+            d["file_raw"] = G.EMPTY_RAW[(k + 1) % len(G.EMPTY_RAW)]
+    return vm
+
+
 # --------------------------------------------------------------------------- OVF: file ids and disk ids are independent id spaces
 
 def render_ovf_crossed(vm, rng):
@@ -362,6 +394,8 @@ def generate(seed, tier):
         vm = G.gen_vm(rng, tier)
         if i % 5 == 1:                                        # every run: '#' inside values (all four renderings of this VM)
             vm = hashify(vm, rng)
+        if i % 10 == 3:                                       # every run: hard disks whose deviceType key is present but empty
+            vm = emptytype(vm, random.Random(f"C18/emptytype/{seed}/{i}"), i // 10)
         for fmt in FMTS:
             variant = None
             if fmt == "vmx":
@@ -393,6 +427,8 @@ def build(case):
         branches |= {"vmx-comment"} if "\n#" in text or "\n #" in text or "\n\t#" in text else set()
         branches |= {"vmx-hash-in-disk-file"} if any("#" in t for t in truth) else set()
         branches |= {"vmx-hash-in-value"} if any("#" in v for v in tdict.values()) else set()
+        et = [k for k, v in tdict.items() if k.endswith(".devicetype") and v == "" and tdict.get(k[:-11] + ".filename")]
+        branches |= {"vmx-empty-devicetype-on-hard-disk"} if et else set()
         if r.get("variant") == "reassign" and len(qs) > 5:
             branches.add("vmx-reassigned-key")
         in_scope = all(_lower_ok(l.partition("=")[0]) for l in text.split("\n")) and all(_lower_ok(v) for k, v in tdict.items() if k.endswith(".devicetype"))
